@@ -259,6 +259,12 @@ class Parser:
                     self.next()
             self.skip_balanced()
             return self.mk("item", start, t.text)
+        if (t.kind == "id" and t.text in ("if", "match", "loop", "while", "for", "unsafe")) or (t.kind == "op" and t.text == "{"):
+            # in statement position a block-like expression ends at its closing brace (`if c { } *p += 1;` is two statements)
+            e = self.parse_primary(False)
+            if self.peek().text in (".", "?") and self.peek().kind == "op":
+                e = self.parse_postfix(e, start, False)
+            return e
         e = self.parse_expr()
         if self.peek().kind == "op" and self.peek().text in ASSIGN:
             op = self.next().text
